@@ -2,7 +2,7 @@
 import itertools
 import random
 
-from harness import core, tlaparse
+from harness import algo, core, tlaparse
 
 TRACE = "TraceFA"
 ASSUMPTIONS = [
@@ -38,7 +38,8 @@ def exhaustive(tier):
 
 
 def model_runs(tier):
-    return []     # the generator runs below carry the M1 invariants (TypeOK, DetOK, RevOK, LangOK, EmptyOK)
+    # the generator runs below carry the M1 invariants (TypeOK, DetOK, RevOK, LangOK, EmptyOK)
+    return algo.subset_construction(tier)
 
 
 def hashseeds(tier):
